@@ -129,6 +129,25 @@ def seqs(k, lvl, mode, acc):
 
 def reqseg(v, acc):
     pieces = ['1', 'A', '22', 'BC', '333', 'D', '4', 'EF', '55', 'G', '666', 'HI'] + (['a', '7', 'bc', 'K'] if T.mode_supported('byte', v) else [])
+    # adjacent parts of the same mode (the encoder may merge them into one segment): the sizes must count the merged-in part
+    if T.mode_supported('alphanumeric', v):
+        for lvl in T.levels_of(v):
+            mx = C.max_count('alphanumeric', v, lvl)
+            for first in (2, 4, max(2, mx - 4) // 2 * 2):
+                for second in (1, 2, 3, max(1, mx - first - 1), max(1, mx - first), mx - first + 1, mx - first + 2):
+                    if second < 1:
+                        continue
+                    text = C.content_of('alphanumeric', first + second, 0)
+                    for content in ([text[:first], text[first:]], ['12', text[:first], text[first:]]):
+                        for kw in ({'error': lvl, 'micro': None if T.is_micro(v) else False}, {'error': lvl, 'version': v}):
+                            kw = {k: x for k, x in kw.items() if x is not None or k == 'micro'}
+                            if lvl is None:
+                                kw.pop('error', None)
+                            try:
+                                qr = segno.make(content, **kw)
+                            except C.REFUSALS:
+                                continue
+                            judge_as_read(qr, acc, ('reqseg1', v, lvl, first, second, sorted(kw)))
     for lvl in T.levels_of(v):
         for k in range(1, len(pieces) + 1):
             for start in (0, 1):
